@@ -12,10 +12,10 @@ META = {
              'root.src, get_options()); oracle: each thread\'s transcript equals the transcript of the same script run alone in a fresh thread; a new thread always starts from '
              'the module defaults; _MODIFYING is empty when all threads are idle. Schedule diversity: sys.setswitchinterval(1e-6) + sys.monitoring LINE callbacks on '
              'fst_options functions and _Modifying.enter/success/fail doing sleep(0) with seeded probability; the event log gives observed cross-thread interleavings. '
-             'A cell is (part, option/nesting shape) or (threads, overlap class).'),
+             'A cell is (part, option/nesting shape) or (threads, overlap class). (v) API isolation: reconcile() (succeeding and failing during recursion), sub(), as_(), failing parses/puts, put_docstr, search under random non-default ambient defaults: get_options() and a probe of default-driven behaviour (walrus / trivia / arglike / pars / docstr / elif results) are the same after the call as before. Thread scripts set pars_arglike, pars_walrus, norm_get, docstr ... as thread defaults and record results that depend only on those defaults; each script is also run in the MAIN thread and its transcript must equal the worker-thread transcripts.'),
     'budget': {'quick': 30, 'thorough': 600},
-    'floors': {'quick': {'per_call_isolation_checks': 3000, 'nesting_points_checked': 3000, 'invalid_option_requests': 1500, 'thread_transcripts_compared': 60, 'cross_thread_switches_at_hooks': 2000},
-               'thorough': {'per_call_isolation_checks': 60000, 'nesting_points_checked': 60000, 'invalid_option_requests': 20000, 'thread_transcripts_compared': 1500, 'cross_thread_switches_at_hooks': 50000}},
+    'floors': {'quick': {'api_isolation_checks': 1000, 'per_call_isolation_checks': 3000, 'nesting_points_checked': 3000, 'invalid_option_requests': 1500, 'thread_transcripts_compared': 60, 'cross_thread_switches_at_hooks': 2000},
+               'thorough': {'api_isolation_checks': 6000, 'per_call_isolation_checks': 60000, 'nesting_points_checked': 60000, 'invalid_option_requests': 20000, 'thread_transcripts_compared': 1500, 'cross_thread_switches_at_hooks': 50000}},
     'assumptions': ['CPython 3.12 with the GIL: interleavings are at bytecode/line granularity (no free-threaded build available)', 'set_options inside an options() block for options NOT named by the block persists (documented)'],
     'technique': 'runtime monitoring: shadow-stack model for option scopes + alone-vs-concurrent transcript comparison under sys.monitoring yield injection',
 }
